@@ -20,6 +20,8 @@ SPEC = {
         gen('vh_c40', 'up_coinselection_knapsack', 20000, 400000, workers_quick=4, rule='upstream fuzz target (supplementary)'),
         gen('vh_c40', 'c40_bnb_literal', 0, 0, tiers=(), rule='replay-only: known finding (BnB complete search vs supersets at low feerate)'),
         gen('vh_c40', 'c40_bnb_tie_literal', 0, 0, tiers=(), rule='replay-only: known finding (BnB clone skipping under a binding weight limit)'),
+        # coverage-guided libFuzzer campaign on the same target (thorough tier only; fz tree = g++ trace-pc + covshim)
+        fuzz('vh_c40', 'c40_coinselection', 300, max_len=420),
     ],
 }
 
